@@ -645,8 +645,9 @@ func (s *Session) routingKeyInfo(ctx context.Context, stmt string) (*routingKeyI
 	// TODO: it would be nice to mark hosts here but as we are not using the policies
 	// to fetch hosts we cant
 
-	if info.request.colCount == 0 {
-		// no arguments, no routing key, and no error
+	if info.request.colCount == 0 || len(info.request.columns) == 0 {
+		// no arguments (or none described: the PREPARED response carried the
+		// no-metadata flag), no routing key, and no error
 		return nil, nil
 	}
 
